@@ -296,8 +296,8 @@ def cfg(prop, theorems, extras, **kw):
     c = {"prop": prop, "theorems": theorems, "feats": FE, "n_quick": 150, "n_thorough": 3000,
          "tiers": ("t2",), "k_base_quick": 8, "k_extra_quick": 5, "k_base_thorough": 40, "k_extra_thorough": 25,
          "extras": extras, "quick_products": 120,
-         "corpus": ["\\G\\d*", "a|(?<=\\Ka)b", "a*", "(?<=a)|b", "\\b", "(?:a|b)*?", "(?=a)", "$", "(x+x+)+(?=y)|$", "", "^", "(?!x)", "é*", "\\d*(?=é)"],
-         "extra_texts": ["12 34", "", "é", "aé", "xxy xxxx", "a,é", "éé", "aaa", "ab", "abc"],
+         "corpus": ["\\G\\d*", "a|(?<=\\Ka)b", "a(?=b\\Kc)", "\\w(?=\\w\\K)", "(?=a\\K)ab", "a\\Kb|b", "a*", "(?<=a)|b", "\\b", "(?:a|b)*?", "(?=a)", "$", "(x+x+)+(?=y)|$", "", "^", "(?!x)", "é*", "\\d*(?=é)"],
+         "extra_texts": ["12 34", "", "é", "aé", "xxy xxxx", "a,é", "éé", "aaa", "ab", "abc", "héé x", "aab"],
          "alpha": ["a", "b", "é", "-", "1"],
          "assumptions": ["the API theorems are over any search function satisfying SearchOK; for VM-compiled patterns inside the end-to-end theorem with no \\K under a look-behind the compiled search is PROVED to satisfy it at every character boundary, and the iterators are proved to search from boundaries only (Proofs/ApiVm.v, KeepOut.v: the *_vm_* theorems); for wholly-easy patterns the search is regex-automata's (oracle)"]}
     c.update(kw)
